@@ -4,7 +4,7 @@ from ..terms import SELF, FAC, NONE, show, is_const, mentions, subterms
 from ..catalogue import catalogue, is_effect
 from ..lifecycle import lifecycle, cancels
 from ..handles import handles, TIMED
-from .common import where, cls_short, contexts, capabilities, types, short, written_object, SPEC_TYPES, pdu_class_name
+from .common import where, cls_short, contexts, capabilities, types, short, written_object, SPEC_TYPES, pdu_class_name, kind_names
 from .flows import post_dispatch
 
 EXPLANATION = (
@@ -50,7 +50,7 @@ def check(ctx):
                 nw += 1
                 sites.add((e.file, e.line))
                 how, obj = written_object(e.a["data"])
-                cl = {x.split(".")[-1] for x in ty.class_of(obj, eng, timer_func=tr.entry.func.qual if tr.kind == "TIMER" else None)} if obj is not None else set()
+                cl = kind_names(a, ty.class_of(obj, eng, timer_func=tr.entry.func.qual if tr.kind == "TIMER" else None)) if obj is not None else set()
                 kinds_written.update(cl)
                 ok = how in ("encres", "encoded") and bool(cl) and cl <= C2S
                 ctx.ob("W1", "%s write of one whole client packet (%s in %s)" % (cq, short(e.func), tr.label()), ok, where=where(e),
